@@ -13,7 +13,7 @@ EXPLANATION = (
     'test depends on the poll result being Pending (Suspended), on the woken flag and on Arc::strong_count of the per-poll waker, read '
     'after the executor\'s own Waker copy was dropped; R07.d every hand-written poll function of crux_core and crux_time that returns Pending has '
     'kept a clone of the waker of the current poll (the premise under which "no clone survives" means "cannot be woken"). R07.b also requires that every '
-    'task leaving the slab — finished, aborted or evicted — publishes `finished` and wakes its join handles (after the removal, or on every terminal path of run_task). R07.g both executor loops re-read the spawn and ready queues after any task has run, on every path out, so a task spawned in the last poll of an evicted task is in the slab before is_done looks (shared with C01 R01.e). NOT decided: exactness of the waker-count heuristic — whether "no surviving '
+    'task leaving the slab — finished, aborted or evicted — publishes `finished` and wakes its join handles (after the removal, or on every terminal path of run_task). R07.h the task slabs of the command and of the core executor are used only through operations that keep every remaining task under its key (TaskIds live in wakers and queues). R07.g both executor loops re-read the spawn and ready queues after any task has run, on every path out, so a task spawned in the last poll of an evicted task is in the slab before is_done looks (shared with C01 R01.e). NOT decided: exactness of the waker-count heuristic — whether "no surviving '
     'waker clone" coincides with "can never be woken" for every mix of joins, selects, channels and self-waking futures depends on '
     'what arbitrary user futures do with wakers at run time.')
 
@@ -193,6 +193,13 @@ def check(ctx, rep):
     # may have spawned in its last poll), before is_done looks at the slab (shared with C01 R01.e)
     rep.rule('R07.g', 'both executor loops read both queues and return only after finding them empty again once any task has run', floor=5)
     c01.check_executor_loops(rep, core, rid='R07.g')
+    # R07.h: a suspended task is reached through the TaskId its wakers and the ready queue hold, which is its key in the task slab: no
+    # slab operation may move a live task to another key (compact, drain-and-reinsert), or its wake-ups poll nothing — or somebody else —
+    # and the task is never finished nor evicted (the same rule as the bridge registry's, R09.a)
+    from rules.props import c09 as _c09
+    rep.rule('R07.h', 'task ids are stable: the task slabs are only used through operations that keep every remaining task under its key', floor=2)
+    _c09.check_slab_keys(rep, 'R07.h', core, 'crux_core::command::executor::Task', 'command tasks', 5, extra=('clear',))
+    _c09.check_slab_keys(rep, 'R07.h', core, 'core::option::Option<core::pin::Pin<alloc::boxed::Box<dyn', 'core executor tasks', 4)
     # R07.d: the premise of the eviction test for the futures crux itself provides
     from rules.props import c05
     rep.rule('R07.d', 'every future provided by crux that stays Pending holds a clone of the current poll\'s waker (or is deliberately unwakeable): '
